@@ -62,8 +62,9 @@ def handle : List String → String
       | .error .none => "err none"
       | .error .malleable => "err malleable"
     | _, _, _, _, _ => "bad-op"
-  | "exec" :: ctx :: sigs :: wit :: toks =>
-    -- sigs: `key:sig,…` (the signatures that verify); wit: the witness stack, bottom first, `,`-separated
+  | "exec" :: ctx :: sigs :: wit :: _lt :: _sq :: _ver :: toks =>
+    -- sigs: `key:sig,…` (the signatures that verify for the spend); wit: the witness stack, bottom first;
+    -- nLockTime, nSequence and version are for the implementation side (no lock time in the covered set)
     match readTable sigs, (if wit == "-" then some [] else (wit.splitOn ",").mapM fromHex?) with
     | some sg, some w => withMs ctx toks fun c n =>
       let sigOK : Key → Bytes → Bool := fun k σ => !σ.isEmpty && sg.any fun p => p.1 == k && p.2 == σ
@@ -71,11 +72,7 @@ def handle : List String → String
         | .sha256 => Btc.sha256 b | .hash256 => Btc.hash256 b | .ripemd160 => Btc.ripemd160 b
         | .hash160 => Btc.hash160 b
       let E : EvalEnv := ⟨sigOK, hashF, fun _ => false, fun _ => false⟩
-      match exec E (opsOf c Btc.hash160 false n) ⟨w.reverse, [], []⟩ with
-      | some st => if st.alt.isEmpty && st.conds.isEmpty
-          then "ok " ++ (if st.stack.isEmpty then "-" else ",".intercalate (st.stack.map toHex))
-          else "err unbalanced"
-      | none => "err fail"
+      if accepts E c (opsOf c Btc.hash160 false n) w.reverse then "accept" else "reject"
     | _, _ => "bad-op"
   | "pushnum" :: [n] =>
     match n.toNat? with
